@@ -6,7 +6,8 @@
    2. program.py             Program.assert_modes (integer and dictionary form);
       tdm/program.py         TDMProgram.assert_modes
    3. compilers/xunitary.py  list_duplicates, the S2gate checks, insertion of zero squeezers and the
-                             merge of repeated squeezers (pop / insert index arithmetic) of Xunitary.compile
+                             merge of repeated squeezers (pop / insert index arithmetic, dagger sign) of
+                             Xunitary.compile; the pre-fix version is kept as *_old
    4. compilers/tdm.py       Borealis.update_params phase pipeline (over Q, pi an arbitrary positive rational:
                              np.pi *is* a rational, and so is every binary64 the code computes with)
    5. compilers/tdm.py       Borealis.compile loop-offset insertion
@@ -152,9 +153,11 @@ Section S2.
   Variable K : Type.
   Variable kzero : K.
   Variable kadd : K -> K -> K.
+  Variable kneg : K -> K.             (* unary minus *)
   Variable kneq : K -> K -> bool.     (* Python `!=` on the phase values *)
 
-  Record s2 := mkS2 { mi : nat; mj : nat; sr : K; sphi : K }.
+  (* an S2gate command: modes, r, phi and the dagger flag of the operation *)
+  Record s2 := mkS2 { mi : nat; mj : nat; sr : K; sphi : K; sdag : bool }.
   Definition s2key (c : s2) : key := (mi c, mj c).
 
   Inductive res (A : Type) := Ok (a : A) | CircuitErr (code : nat) | IndexErr.
@@ -176,9 +179,12 @@ Section S2.
     | S i', y :: l' => y :: insert_at i' x l'
     end.
 
+  (* `-removed_cmd.op.p[0] if removed_cmd.op.dagger else removed_cmd.op.p[0]` *)
+  Definition signed_r (c : s2) : K := if sdag c then kneg (sr c) else sr c.
+
   (* the inner loop  `for k, i in enumerate(sorted(indices, reverse=True))`;
-     first = (k == 0); state (B, r, phi) *)
-  Fixpoint pop_loop (idx : list nat) (first : bool) (B : list s2) (r phi : K) : res (list s2 * K * K) :=
+     first = (k == 0); state (B, r, phi); `rof` is what is added to r for a removed command *)
+  Fixpoint pop_loop_gen (rof : s2 -> K) (idx : list nat) (first : bool) (B : list s2) (r phi : K) : res (list s2 * K * K) :=
     match idx with
     | [] => Ok (B, r, phi)
     | i :: idx' =>
@@ -186,18 +192,20 @@ Section S2.
         | None => IndexErr
         | Some (c, B') =>
             if negb first && kneq (sphi c) phi then CircuitErr 3
-            else pop_loop idx' false B' (kadd r (sr c)) (sphi c)
+            else pop_loop_gen rof idx' false B' (kadd r (rof c)) (sphi c)
         end
     end.
+  Definition pop_loop := pop_loop_gen signed_r.
 
-  (* the outer loop  `for mode, indices in list_duplicates(regrefs)`; `indices` were computed once,
-     before any pop or insert *)
-  Fixpoint merge_loop (dups : list (key * list nat)) (B : list s2) : res (list s2) :=
+  (* the outer loop  `for mode, _ in list(list_duplicates(regrefs))`: the keys with repeated squeezers are
+     fixed beforehand, the locations of each key are computed on the CURRENT list *)
+  Fixpoint merge_loop (dups : list key) (B : list s2) : res (list s2) :=
     match dups with
     | [] => Ok B
-    | (k, idx) :: dups' =>
+    | k :: dups' =>
+        let idx := positions k (map s2key B) in
         match pop_loop (rev idx) true B kzero kzero with
-        | Ok (B', r, phi) => merge_loop dups' (insert_at (hd 0 idx) (mkS2 (fst k) (snd k) r phi) B')
+        | Ok (B', r, phi) => merge_loop dups' (insert_at (hd 0 idx) (mkS2 (fst k) (snd k) r phi false) B')
         | CircuitErr c => CircuitErr c
         | IndexErr => IndexErr
         end
@@ -208,7 +216,7 @@ Section S2.
 
   (* `for i, j in missing: B.insert(0, S2gate(0, 0) | (i, j))`; `miss` is the iteration order of the set *)
   Definition add_missing (N : nat) (miss : list nat) (B : list s2) : list s2 :=
-    fold_left (fun B i => mkS2 i (i + N) kzero kzero :: B) miss B.
+    fold_left (fun B i => mkS2 i (i + N) kzero kzero false :: B) miss B.
 
   (* the S2gate part of Xunitary.compile, from the B returned by group_operations to the B returned *)
   Definition s2_stage (N : nat) (miss : list nat) (B : list s2) : res (list s2) :=
@@ -216,10 +224,29 @@ Section S2.
     else
       let B1 := add_missing N miss B in
       let regrefs := map s2key B1 in
-      if N <? length regrefs then merge_loop (list_duplicates regrefs) B1 else Ok B1.
+      if N <? length regrefs then merge_loop (map fst (list_duplicates regrefs)) B1 else Ok B1.
+
+  (* ---- the stage as it stood before the "fix:" commits 40078be / ece8029 (locations computed once, before any
+     pop or insert; dagger flag ignored): kept so that the refutations stay machine-checked ---- *)
+  Fixpoint merge_loop_old (dups : list (key * list nat)) (B : list s2) : res (list s2) :=
+    match dups with
+    | [] => Ok B
+    | (k, idx) :: dups' =>
+        match pop_loop_gen sr (rev idx) true B kzero kzero with
+        | Ok (B', r, phi) => merge_loop_old dups' (insert_at (hd 0 idx) (mkS2 (fst k) (snd k) r phi false) B')
+        | CircuitErr c => CircuitErr c
+        | IndexErr => IndexErr
+        end
+    end.
+  Definition s2_stage_old (N : nat) (miss : list nat) (B : list s2) : res (list s2) :=
+    if negb (forallb (allowed N) B) then CircuitErr 2
+    else
+      let B1 := add_missing N miss B in
+      let regrefs := map s2key B1 in
+      if N <? length regrefs then merge_loop_old (list_duplicates regrefs) B1 else Ok B1.
 End S2.
 Arguments Ok {A}. Arguments CircuitErr {A}. Arguments IndexErr {A}.
-Arguments mkS2 {K}. Arguments mi {K}. Arguments mj {K}. Arguments sr {K}. Arguments sphi {K}.
+Arguments mkS2 {K}. Arguments mi {K}. Arguments mj {K}. Arguments sr {K}. Arguments sphi {K}. Arguments sdag {K}.
 
 (* ------------------------------------------------------------------------------------------ *)
 (** * 4. Borealis.update_params phase pipeline (exact rational arithmetic) *)
